@@ -2,6 +2,7 @@ package main
 
 import (
 	"fmt"
+	"go/constant"
 	"go/token"
 	"go/types"
 	"reflect"
@@ -425,6 +426,359 @@ func runC14(c *Ctx) {
 		}
 		c.Check(fname(nx)+"#kept-piece-only-while-buffer-owned", nx.Pos(), !badNext, ifelse(!badNext, "a kept piece is returned only under buf != nil", "next() returns a kept piece without knowing that the buffer is still owned: after the buffer went back to the pool the piece is served from memory another encoder is writing"))
 	}
+	// ------------------------------------------------------------ E7
+	c.Rule("C14.E7", "OWNERSHIP", "the writers and decoders built per type are cached in a table shared by all goroutines, so they carry no mutable state: a closure created in a function of package rlp that returns a writer or decoder never stores through a captured variable and never calls a mutating reflect.Value method (Set…, Grow, Slice-of-addressable scratch) on a captured value — a shared scratch value lets two concurrent encodes overwrite each other's bytes")
+	c.Min(8)
+	c14E7(c, w)
+
+	// ------------------------------------------------------------ E8
+	c.Rule("C14.E8", "GATE", "a nil pointer has one encoding: in the decoder built by makeOptionalPtrDecoder every path that turns an empty value into a nil pointer without error has compared the value's kind with the kind the encoder writes for nil (not merely 'not a single byte') — otherwise 0x80 and 0xC0 are both accepted for an rlp:\"nil\" field (the transaction's recipient) and accepted bytes do not re-encode to themselves")
+	c.Min(1)
+	c14E8(c, w)
+
+	// ------------------------------------------------------------ E9
+	c.Rule("C14.E9", "GATE", "a pointer field tagged rlp:\"nil\" can be nil after decoding hostile bytes: every dereference of such a field in the repository (field access, load, or handing it to a function that dereferences its parameter unconditionally) is dominated by a nil test of that field — message handlers reject rather than crash")
+	c.Min(1)
+	c14E9(c, w)
+}
+
+func c14E7(c *Ctx, w *World) {
+	mutators := map[string]bool{"Set": true, "SetBool": true, "SetBytes": true, "SetCap": true, "SetComplex": true, "SetFloat": true, "SetInt": true, "SetLen": true, "SetMapIndex": true, "SetPointer": true, "SetString": true, "SetUint": true, "SetZero": true, "SetIterKey": true, "SetIterValue": true, "Grow": true, "Clear": true}
+	isCodecType := func(t types.Type) bool {
+		n := ownerName(t)
+		return n == "writer" || n == "decoder"
+	}
+	n := 0
+	for _, fn := range w.FuncsIn("rlp") {
+		if strings.HasSuffix(w.fileOf(fn.Pos()), "_test.go") || fn.Blocks == nil || fn.Parent() != nil {
+			continue
+		}
+		res := fn.Signature.Results()
+		returnsCodec := false
+		for i := 0; i < res.Len(); i++ {
+			if isCodecType(res.At(i).Type()) {
+				returnsCodec = true
+			}
+		}
+		if !returnsCodec {
+			continue
+		}
+		var closures []*ssa.Function
+		var collect func(f *ssa.Function)
+		collect = func(f *ssa.Function) {
+			for _, a := range f.AnonFuncs {
+				closures = append(closures, a)
+				collect(a)
+			}
+		}
+		collect(fn)
+		for k, cl := range closures {
+			n++
+			c.sites++
+			c.sawFunc(fname(fn))
+			bad := ""
+			// the location / value is a captured variable or lies inside one
+			fromFree := func(v ssa.Value) bool {
+				for i := 0; i < 16 && v != nil; i++ {
+					switch x := v.(type) {
+					case *ssa.FreeVar:
+						return true
+					case *ssa.FieldAddr:
+						v = x.X
+					case *ssa.IndexAddr:
+						v = x.X
+					case *ssa.Field:
+						v = x.X
+					case *ssa.UnOp:
+						if x.Op != token.MUL {
+							return false
+						}
+						v = x.X
+					default:
+						return false
+					}
+				}
+				return false
+			}
+			for _, b := range cl.Blocks {
+				for _, in := range b.Instrs {
+					switch x := in.(type) {
+					case *ssa.Store:
+						// a store whose address is (derived from) a captured variable
+						if fromFree(x.Addr) && bad == "" {
+							bad = "stores through a captured variable at " + w.Pos(x.Pos())
+						}
+					case *ssa.MapUpdate:
+						if fromFree(x.Map) && bad == "" {
+							bad = "updates a captured map at " + w.Pos(x.Pos())
+						}
+					case ssa.CallInstruction:
+						o := calleeObj(x)
+						if o == nil || o.Pkg() == nil || o.Pkg().Path() != "reflect" || recvName(o) != "Value" {
+							continue
+						}
+						r := callRecv(x)
+						if r == nil {
+							if a := x.Common().Args; len(a) > 0 {
+								r = a[0]
+							}
+						}
+						if r == nil || !fromFree(r) {
+							continue
+						}
+						if mutators[o.Name()] && bad == "" {
+							bad = "calls reflect.Value." + o.Name() + " on a captured value at " + w.Pos(x.Pos())
+						}
+					}
+				}
+			}
+			c.Check(fmt.Sprintf("%s#cached-closure-%d-stateless", fname(fn), k), cl.Pos(), bad == "", ifelse(bad == "", "captured values are only read", "a cached codec function "+bad+": the function is shared by every goroutine through the type cache, so concurrent encodes / decodes of this type corrupt each other"))
+		}
+	}
+	if n == 0 {
+		c.Undecided("rlp#cached-codec-closures", token.NoPos, "no closure-building writer / decoder constructors found in package rlp")
+	}
+}
+
+func c14E8(c *Ctx, w *World) {
+	mk := w.Fn("rlp", "", "makeOptionalPtrDecoder")
+	c.sawFunc(fname(mk))
+	kindObj := w.FuncObj("rlp", "Stream", "Kind")
+	byteV, _ := constant.Int64Val(constant.ToInt(constOf(w, "rlp", "Byte")))
+	n := 0
+	for _, cl := range mk.AnonFuncs {
+		kcalls := callsTo(cl, kindObj)
+		if len(kcalls) == 0 {
+			continue
+		}
+		var kindVal, errVal ssa.Value
+		for _, r := range *kcalls[0].Value().Referrers() {
+			if ex, ok := r.(*ssa.Extract); ok {
+				switch ex.Index {
+				case 0:
+					kindVal = ex
+				case 2:
+					errVal = ex
+				}
+			}
+		}
+		if kindVal == nil {
+			continue
+		}
+		// nil-setting sites: val.Set(reflect.Zero(..)) on the decoder's value parameter
+		isNilSet := func(in ssa.Instruction) bool {
+			ci, ok := in.(ssa.CallInstruction)
+			if !ok {
+				return false
+			}
+			o := calleeObj(ci)
+			if o == nil || o.Name() != "Set" || recvName(o) != "Value" {
+				return false
+			}
+			args := ci.Common().Args
+			if len(args) < 2 {
+				return false
+			}
+			return derivesFrom(args[len(args)-1], func(x ssa.Value) bool {
+				cc, isC := x.(*ssa.Call)
+				return isC && calleeObj(cc) != nil && calleeObj(cc).Name() == "Zero"
+			})
+		}
+		nPaths, bad := 0, 0
+		okEnum := enumPaths(cl, 4096, func(pr PathResult) {
+			sets := false
+			for b := range pr.Blocks {
+				for _, in := range b.Instrs {
+					if isNilSet(in) {
+						sets = true
+					}
+				}
+			}
+			if !sets {
+				return
+			}
+			atoms := atomsOf(pr.Facts)
+			if contradictoryAtoms(atoms) {
+				return
+			}
+			// paths on which Kind failed are not acceptances
+			for _, a := range atoms {
+				if a.Kind == "isnil" && !a.Truth && errVal != nil && stripConv(a.X) == errVal {
+					return
+				}
+			}
+			nPaths++
+			tested := false
+			for _, a := range atoms {
+				if a.Kind != "eq" || !a.Truth || a.Y == nil {
+					continue
+				}
+				other := ssa.Value(nil)
+				if stripConv(a.X) == kindVal {
+					other = a.Y
+				} else if stripConv(a.Y) == kindVal {
+					other = a.X
+				}
+				if other == nil {
+					continue
+				}
+				if kv, isC := constInt(other); isC && kv == byteV {
+					continue
+				}
+				tested = true
+			}
+			if !tested {
+				bad++
+			}
+		})
+		n++
+		c.sites += nPaths
+		if !okEnum {
+			c.Undecided(fname(mk)+"#nil-only-for-the-canonical-empty-kind", cl.Pos(), "the decoder closure could not be enumerated")
+			continue
+		}
+		c.Check(fname(mk)+"#nil-only-for-the-canonical-empty-kind", cl.Pos(), nPaths > 0 && bad == 0, ifelse(nPaths > 0 && bad == 0, fmt.Sprintf("all %d accepting paths that set the pointer to nil established kind == the encoder's nil kind", nPaths), fmt.Sprintf("%d of %d accepting paths set the pointer to nil for any empty value (string or list): two byte strings decode to the same object and only one of them is what the encoder writes", bad, nPaths)))
+	}
+	if n == 0 {
+		c.Undecided(fname(mk)+"#nil-only-for-the-canonical-empty-kind", mk.Pos(), "the decoder closure calling (*Stream).Kind was not found")
+	}
+}
+
+func c14E9(c *Ctx, w *World) {
+	// fields tagged rlp:"nil" in the repository's own packages
+	tagged := map[*types.Var]string{}
+	for _, p := range w.Pkgs {
+		if p.Types == nil {
+			continue
+		}
+		sc := p.Types.Scope()
+		for _, name := range sc.Names() {
+			tn, ok := sc.Lookup(name).(*types.TypeName)
+			if !ok {
+				continue
+			}
+			st, ok := tn.Type().Underlying().(*types.Struct)
+			if !ok {
+				continue
+			}
+			for i := 0; i < st.NumFields(); i++ {
+				for _, t := range strings.Split(reflect.StructTag(st.Tag(i)).Get("rlp"), ",") {
+					if strings.TrimSpace(t) == "nil" {
+						tagged[st.Field(i)] = tn.Name() + "." + st.Field(i).Name()
+					}
+				}
+			}
+		}
+	}
+	if len(tagged) == 0 {
+		c.Undecided("rlp-nil-tagged-fields", token.NoPos, "no field tagged rlp:\"nil\" found (txdata.Recipient is expected)")
+		return
+	}
+	// does g dereference its parameter #idx without a dominating nil test?
+	derefsParam := func(g *ssa.Function, idx int) bool {
+		if g == nil || g.Blocks == nil || idx >= len(g.Params) {
+			return false
+		}
+		prm := g.Params[idx]
+		for _, r := range *prm.Referrers() {
+			if !isDeref(r, prm) {
+				continue
+			}
+			nonNil := false
+			for _, a := range atomsOf(factsAtInstr(r)) {
+				if a.Kind == "isnil" && !a.Truth && stripConv(a.X) == ssa.Value(prm) {
+					nonNil = true
+				}
+			}
+			if !nonNil {
+				return true
+			}
+		}
+		return false
+	}
+	n := 0
+	perFn := map[*ssa.Function]int{}
+	for _, fn := range w.AllFuncs() {
+		if fn.Blocks == nil || fn.Pkg == nil || !strings.HasPrefix(fn.Pkg.Pkg.Path(), modPath) || strings.HasSuffix(w.fileOf(fn.Pos()), "_test.go") {
+			continue
+		}
+		for _, b := range fn.Blocks {
+			for _, in := range b.Instrs {
+				ld, ok := in.(*ssa.UnOp)
+				if !ok || ld.Op != token.MUL {
+					continue
+				}
+				fa, ok := ld.X.(*ssa.FieldAddr)
+				if !ok {
+					continue
+				}
+				name, isTagged := tagged[fieldOfAddr(fa)]
+				if !isTagged {
+					continue
+				}
+				// uses of the loaded pointer
+				var uses []ssa.Instruction
+				var walk func(v ssa.Value, depth int)
+				walk = func(v ssa.Value, depth int) {
+					if v.Referrers() == nil || depth > 3 {
+						return
+					}
+					for _, r := range *v.Referrers() {
+						if isDeref(r, v) {
+							uses = append(uses, r)
+							continue
+						}
+						switch x := r.(type) {
+						case *ssa.Phi:
+							walk(x, depth+1)
+						case *ssa.ChangeType:
+							walk(x, depth+1)
+						case ssa.CallInstruction:
+							if g := staticCallee(x); g != nil {
+								for i, a := range x.Common().Args {
+									if a == v && derefsParam(g, i) {
+										uses = append(uses, r)
+									}
+								}
+							}
+						}
+					}
+				}
+				walk(ld, 0)
+				for _, u := range uses {
+					n++
+					perFn[fn]++
+					c.sites++
+					c.sawFunc(fname(fn))
+					guarded := false
+					for _, a := range atomsOf(factsAtInstr(u)) {
+						if a.Kind == "isnil" && !a.Truth && (stripConv(a.X) == ssa.Value(ld) || samePath(stripConv(a.X), ld)) {
+							guarded = true
+						}
+					}
+					c.Check(fmt.Sprintf("%s#%s-dereferenced-after-nil-test-%d", fname(fn), name, perFn[fn]), u.Pos(), guarded, ifelse(guarded, "dominated by a nil test of the field", "the optional field "+name+" (nil after decoding an empty value) is dereferenced without a nil test: a peer can crash the node with a message whose field is empty"))
+				}
+			}
+		}
+	}
+	if n == 0 {
+		c.Undecided("rlp-nil-tagged-fields#dereferences", token.NoPos, "no dereference of an rlp:\"nil\" field found (Transaction.To is expected)")
+	}
+}
+
+// isDeref: instruction r dereferences pointer v (load, field or element address, or use as a method receiver that is loaded).
+func isDeref(r ssa.Instruction, v ssa.Value) bool {
+	switch x := r.(type) {
+	case *ssa.UnOp:
+		return x.Op == token.MUL && x.X == v
+	case *ssa.FieldAddr:
+		return x.X == v
+	case *ssa.IndexAddr:
+		return x.X == v
+	case *ssa.Store:
+		return x.Addr == v
+	}
+	return false
 }
 
 func valueOf(in ssa.Instruction) ssa.Value {
